@@ -3,6 +3,7 @@ Case: {"mode", "p": time point record (fractions of at most 6 digits), "fmts": [
 import random
 
 from harness import gen, render
+from harness import refcal as R
 from harness.common import MEANING, mk_tp, outcome, proj_tp, set_mode
 from metomi.isodatetime.dumpers import TimePointDumper
 from metomi.isodatetime.parsers import TimePointParser
@@ -70,11 +71,13 @@ def _one(case, rec, cid, p):
 DATES = {"cal": ["CCYY-MM-DD", "CCYYMMDD"], "ord": ["CCYY-DDD", "CCYYDDD"], "week": ["CCYY-Www-D", "CCYYWwwD"]}
 
 
-def formats(rnd, p):
-    """complete dump formats: a complete date (any representation), the time down to p's precision, a zone."""
+def formats(rnd, p, safe=False):
+    """complete dump formats: a complete date (any representation), the time down to p's precision, a zone.
+    safe: for years at the edge of what the format can express - p's own representation and offset (no re-zoning, no other
+    year numbering), so the dumped year is exactly p's."""
     out = []
     for _ in range(3):
-        rep = rnd.choice(["cal", "ord", "week"])
+        rep = p["rep"] if safe else rnd.choice(["cal", "ord", "week"])
         ext = rnd.random() < 0.5
         d = DATES[rep][0 if ext else 1]
         if p.get("xd"):
@@ -87,7 +90,7 @@ def formats(rnd, p):
         else:
             t = "hh,ii"
         whole = p["prec"] == "hms" and not dec
-        if whole and rnd.random() < 0.5:
+        if whole and not safe and rnd.random() < 0.5:
             z = rnd.choice(["Z", "+01:00" if ext else "+0100", "-03:30" if ext else "-0330", "+13:45" if ext else "+1345", "-00:30" if ext else "-0030"])
         else:
             z = "+hh:mm" if ext else "+hhmm"
@@ -101,15 +104,26 @@ def expand(job):
         sp = gen.spelling(rnd)
         m = MEANING[sp]
         p = gen.rand_point(rnd, m, wide=rnd.random() < 0.3, whole=rnd.random() < 0.6, allow24=rnd.random() < 0.2)
+        if rnd.random() < 0.06:
+            # the extreme years a format can express: 0000 / 9999, and -/+ 99..9 with expanded digits
+            xd_ = rnd.choice([0, 0, 1, 2])
+            top = 10 ** (4 + xd_) - 1
+            y_ = rnd.choice([top, top, 0, -top] if xd_ else [top, top, 0])
+            n_ = R.year_start(m, y_) + rnd.choice([0, 1, 40, R.diy(m, y_) - 1, R.diy(m, y_) - 2])
+            rep_ = rnd.choice(["cal", "ord"])
+            yy_, a_, b_ = R.date_of(m, rep_, n_)
+            p = dict(p, rep=rep_, y=yy_, a=a_, b=b_, xd=xd_, edge=True)
         if "dec" in p and len(p["dec"]) > 6:
             p["dec"] = p["dec"][:6]
-        if p["y"] < 0 or p["y"] > 9999:
+        if p.pop("edge", False):
+            pass
+        elif p["y"] < 0 or p["y"] > 9999:
             p["xd"] = rnd.choice([2, 3, 4]) if abs(p["y"]) <= 999999 else 3
         elif rnd.random() < 0.15:
             p["xd"] = rnd.choice([1, 2, 3])      # several digit settings in one process (dumpers are cached per setting)
         # years at the edge of the dumper's range would be pushed out of it by a literal-zone format
         inner = (1 <= p["y"] <= 9998) if not p.get("xd") else abs(p["y"]) <= 10 ** (4 + p["xd"]) - 3
-        fm = formats(rnd, p) if inner else []
+        fm = formats(rnd, p) if inner else formats(rnd, p, safe=True)
         case = {"mode": sp, "p": p, "fmts": fm}
         if inner and p["prec"] == "hms" and not p.get("dec") and p["hh"] < 24 and rnd.random() < 0.12:
             case["also"] = rnd.randrange(10 ** 6)
